@@ -210,7 +210,7 @@ static Case gen_c01() {
     int e = coin() ? t : (int)pick(0, t);
     if (coin(1, 10)) e = 0;   // surplus: nothing missing
     gen_arrangement(c, g, gen_erasures(g, e), true);
-    c.set("force", coin(1, 3) ? 1 : 0);
+    c.set("force", coin(1, 3) ? (coin(1, 5) ? (int)pick(2, 255) * (coin() ? 1 : -1) : 1) : 0);      // any non-zero value asks for the checks
     c.set("decode", 1);
     c.setl("dests", {});
     c.set("pool", coin(1, 3) ? 1 : 0);
@@ -529,7 +529,7 @@ static Result run_c20(const Case &c) {
         for (int i = 0; i < fs.count; i++) { memcpy(fs.ptrs[i], bufs[i].data(), bufs[i].size()); fs.copies[i] = bufs[i]; }
         r.cls(heal ? "prevalidated_then_healed" : "prevalidated_then_damaged");
     }
-    DecodeOut d = decode(in.desc, fs, s.fraglen, 1);
+    DecodeOut d = decode(in.desc, fs, s.fraglen, (int)c.get("force_value", 1));
     int missing = n - __builtin_popcountll(vmask);
     bool within = missing <= t;
     bool must_exact = within && !(g.backend == ref::B_ISA_V && !ref::isa_first_k_invertible(g, vmask));
@@ -585,6 +585,7 @@ static Case gen_c20() {
     c.setv("pre", pre);
     c.set("pre_heal", (!pre.empty() && coin(1, 4)) ? 1 : 0);
     c.set("legacy_writer", coin(1, 3) ? 1 : 0);
+    c.set("force_value", coin(1, 5) ? (int)pick(2, 255) * (coin() ? 1 : -1) : 1);
     return c;
 }
 
